@@ -13,7 +13,7 @@ rsync -a --no-times --checksum --delete --exclude target --exclude .git /repo/ "
 rsync -a --no-times --checksum --delete --exclude target "${VERIF_HARNESS_SRC:-/verif/harness}/" "$S/harness/"
 sed -i "s#/repo/#$S/repo/#g" "$S/harness/Cargo.toml"
 rm -f "$S/harness/.cargo/config.toml"; printf '[net]\noffline = true\n' > "$S/harness/.cargo/config.toml"
-if [ "$PATCH" != "/dev/null" ]; then (cd "$S/repo" && patch -p1 --no-backup-if-mismatch < "$PATCH" >/dev/null); fi
+if [ "$PATCH" != "/dev/null" ]; then (cd "$S/repo" && patch -p1 --no-backup-if-mismatch < "$PATCH" >/dev/null) || { echo "INCONCLUSIVE patch-does-not-apply $PATCH"; exit 3; }; fi
 mkdir -p "$S/evidence" "$S/replays" "$S/work"
 VERIF_HARNESS_DIR="$S/harness" VERIF_WORK_DIR="$S/work" VERIF_EVIDENCE_DIR="$S/evidence" VERIF_REPLAYS_DIR="$S/replays" \
   python3 /verif/lib/runner.py "$PROP" "$@"
